@@ -106,11 +106,11 @@ Qed.
 
 (** ** Table facts: the field names the rules read are pairwise different *)
 
-Lemma class_base_not_geom cl :
+Lemma class_base_not_geom (cl : cname) :
   In cl classifications ->
   str_eqb K_shape (fst cl) = false /\ str_eqb K_slice_dim (fst cl) = false.
 Proof.
-  assert (H : forallb (fun cl => negb (str_eqb K_shape (fst cl)) && negb (str_eqb K_slice_dim (fst cl)))
+  assert (H : forallb (fun cl : cname => negb (str_eqb K_shape (fst cl)) && negb (str_eqb K_slice_dim (fst cl)))
                       classifications = true) by (vm_compute; reflexivity).
   rewrite forallb_forall in H. intros Hin. specialize (H cl Hin).
   apply andb_true_iff in H. destruct H as [H1 H2].
@@ -360,7 +360,7 @@ Proof.
     destruct (rule_unique (cls_set cl2 (jset k v d2) o)) eqn:E; [|reflexivity]. exfalso.
     unfold rule_unique in E.
     rewrite (shape_value_top o) in E by (apply top_cls_set; exact E1). rewrite H in E.
-    apply (unique_iff _ _ (valid_classes_nodup l)) in E.
+    pose proof (proj2 (unique_iff _ _ (valid_classes_nodup l)) E) as E'. clear E. rename E' into E.
     specialize (E cl1 cl2 H0 H1 H2). unfold disjoint_pair in E.
     assert (Hi : intersects (class_keys_spec (cls_set cl2 (jset k v d2) o) cl1)
                             (class_keys_spec (cls_set cl2 (jset k v d2) o) cl2) = true); [|congruence].
@@ -388,13 +388,13 @@ Proof.
     rewrite H0. apply (forallb_false_in _ _ cl H2).
     assert (Hcd : class_dict (jset K_shape (JArr l') o) cl = class_dict o cl).
     { apply class_dict_same. rewrite jassoc_jset. rewrite str_eqb_sym, E1. reflexivity. }
-    rewrite H3, Hcd, H8. cbv zeta. apply Z.ltb_lt in H5. rewrite H5.
-    apply (forallb_false_in _ _ kv H9).
+    rewrite H3, Hcd, H7. cbv zeta. apply Z.ltb_lt in H5. rewrite H5.
+    apply (forallb_false_in _ _ kv H8).
     unfold rule_counts in R6. rewrite H, H0 in R6. rewrite forallb_forall in R6.
-    specialize (R6 cl H1). rewrite H3, H8 in R6. cbv zeta in R6.
+    specialize (R6 cl H1). rewrite H3, H7 in R6. cbv zeta in R6.
     apply Z.ltb_lt in H4. rewrite H4 in R6.
-    rewrite forallb_forall in R6. specialize (R6 kv H9).
-    apply (value_count_unique _ _ _ R6 H7).
+    rewrite forallb_forall in R6. specialize (R6 kv H8).
+    apply (value_count_unique _ _ _ R6 H6).
   - (* affine *)
     unfold rule_affine. rewrite jassoc_jset, str_eqb_refl. exact H.
   - (* version *)
